@@ -384,7 +384,7 @@ def check_case(ctx: Ctx, c: dict):
             ti = req.get("t", 0) % nterm
             T = terms[ti]["t"]
             kw = {}
-            for k in ("cols", "rows", "id_space", "id_subspace", "force_upload", "upload_method"):
+            for k in ("cols", "rows", "id_space", "id_subspace", "force_upload", "upload_method", "force_id"):
                 if req.get(k) is not None:
                     kw[k] = req[k]
             try:
@@ -416,7 +416,7 @@ def check_case(ctx: Ctx, c: dict):
                     instances[req["name"]] = (inst, req["img"] % len(pool), _expected_token(e))
                     sync(ti, req)
                 elif op == "assign":
-                    inst = T.assign_id(arg, **{k: v for k, v in kw.items() if k in ("cols", "rows", "id_space", "id_subspace")})
+                    inst = T.assign_id(arg, **{k: v for k, v in kw.items() if k in ("cols", "rows", "id_space", "id_subspace", "force_id")})
                     instances[req["name"]] = (inst, req["img"] % len(pool), _expected_token(e))
                     sync(ti, req)
                 elif op == "display_instance":   # display_only right after upload of the same instance on the same terminal
@@ -640,7 +640,7 @@ def cases(ctx: Ctx):
         method = rng.choice(["auto", "file", "direct", "auto"])
         ssh = rng.random() < 0.35
         cfg = dict(id_space=space, id_subspace=sub, upload_method=method,
-                   max_command_size=rng.choice([4096, 300, 1000]),
+                   max_command_size=rng.choice([4096, rng.randrange(110, 900), rng.randrange(110, 400)]),
                    reupload_max_uploads_ago=rng.choice([1024, 1, 2, 3]),
                    reupload_max_bytes_ago=rng.choice([20 * 1024 * 1024, 3000, 1500]),
                    stream_max_size=rng.choice([2 * 1024 * 1024, 1200]),
@@ -665,9 +665,15 @@ def cases(ctx: Ctx):
                 q = dict(op="upload_and_display", t=t, img=rng.randrange(len(pool)), **geom)
                 if rng.random() < 0.1:
                     q["force_upload"] = True
+                if rng.random() < 0.12:
+                    # explicit IDs from the byte-class corners of the ID layout
+                    b = lambda: rng.choice([0, 0, 1, 5, 127, 255])
+                    fid = (b() << 24) | (b() << 16) | (b() << 8) | b()
+                    if fid:
+                        q["force_id"] = fid
                 reqs.append(q)
                 nm = f"i{j}"
-                reqs.append(dict(op="assign", t=t, img=q["img"], name=nm, **geom))  # lets later requests refer to this image's instance
+                reqs.append(dict(op="assign", t=t, img=q["img"], name=nm, **geom, **({"force_id": q["force_id"]} if "force_id" in q else {})))  # lets later requests refer to this image's instance
                 names.append(nm)
             elif r < 0.6:
                 nm = f"i{j}"
